@@ -597,7 +597,7 @@ def run_check(chk, tier, replay=None):
         # 4. judge the differences
         if diffs:
             oracle_in = ["%s\t%s" % (c, io) for c, _, io in diffs]
-            verdicts, _ = run_sharded(model, oracle_in, args=("oracle",), shards=NPROC)
+            verdicts, _ = run_sharded(model, oracle_in, args=tuple(getattr(chk, "oracle_args", ("oracle",))), shards=NPROC)
             unexplained_bad, unexplained_ok = [], []
             kf_hit = {}
             for (c, mo, io), v in zip(diffs, verdicts):
@@ -685,7 +685,7 @@ def shrink_case(chk, model, impl, c, mo, io, want_oracle_reject, budget=300):
         ios, _ = run_lines(impl, cands)
         ver = None
         if want_oracle_reject:
-            ver, _ = run_lines(model, ["%s\t%s" % (cc, chk.normalize(cc, i2)) for cc, i2 in zip(cands, ios)], args=("oracle",))
+            ver, _ = run_lines(model, ["%s\t%s" % (cc, chk.normalize(cc, i2)) for cc, i2 in zip(cands, ios)], args=tuple(getattr(chk, "oracle_args", ("oracle",))))
         for k, cc in enumerate(cands):
             m2, i2 = chk.normalize(cc, mos[k]), chk.normalize(cc, ios[k])
             if m2 != i2 and (not want_oracle_reject or ver[k] == "0") and len(cc) < len(c):
